@@ -3,7 +3,7 @@ import random, re
 from vlib import jtree, streams, gen, zones
 from vlib.run import *
 
-FIELDS = ['Fq1f', 'Fq22ff', 'Fq3', 'x', 'IX', 'SCAN', 'ab', 'abc', 'f0e1', 'deadbeef', 'user_Name', 'Aq.Bq', 'Zq9z8y7x6w5v4u3t2s1r']
+FIELDS = ['Fq1f', 'Fq22ff', 'Fq3', 'x', 'IX', 'SCAN', 'ab', 'abc', 'f0e1', 'deadbeef', 'user_Name', 'Aq.Bq', 'Pq.Qq.Rq', 'Zq9z8y7x6w5v4u3t2s1r']
 
 def run(chk, replay=None):
     rng = random.Random(chk.seed)
@@ -15,7 +15,7 @@ def run(chk, replay=None):
     for i in range(1200 if th else 300):
         fs = rng.sample(FIELDS, rng.randint(2, 5))
         k = rng.randint(1, 3)
-        names = [rng.choice(fs).split('.')[0] for _ in range(k)]
+        names = [(lambda f: f if rng.random() < 0.3 else f.split('.')[0])(rng.choice(fs)) for _ in range(k)]
         plan = rng.choice(['COLLSCAN', 'IDHACK', 'IXSCAN { %s }' % ', '.join('%s: 1' % n for n in names),
                            'IXSCAN { %s: 1 }, IXSCAN { %s: -1 }' % (names[0], names[-1]), 'IXSCAN { %s: 1 }' % fs[0]])
         l, info = gen.command_line(rng, v, fields=fs, db='mydb', coll=rng.choice(['users', 'orders']), plan=plan)
